@@ -1,0 +1,41 @@
+//go:build verif
+
+package sst
+
+// Accessors for the verification harness (build tag verif only).
+
+// VerifTableInfo describes one table of a level list.
+type VerifTableInfo struct {
+	URI         string
+	Name        string
+	StartKey    []byte
+	EndKey      []byte
+	StartSeqNum uint64
+	EndSeqNum   uint64
+	Size        int64
+	Table       *Table
+}
+
+// VerifLayout returns the tables of every level in stored order.
+func (ll *LevelList) VerifLayout() [][]VerifTableInfo {
+	out := make([][]VerifTableInfo, len(ll.levels))
+	for i, l := range ll.levels {
+		for t := range l.AllTables() {
+			out[i] = append(out[i], VerifTableInfo{URI: t.URI(), Name: t.Name(), StartKey: t.startKey, EndKey: t.endKey,
+				StartSeqNum: t.startSeqNum, EndSeqNum: t.endSeqNum, Size: t.size, Table: t})
+		}
+	}
+	return out
+}
+
+// VerifChangeSet returns the additions (level, table) and removals of a change set.
+func (cs *ChangeSet) VerifChangeSet() (addLevels []int, added []*Table, removed []*Table) {
+	for _, a := range cs.additions {
+		addLevels = append(addLevels, a.LevelNum)
+		added = append(added, a.Table)
+	}
+	return addLevels, added, cs.removals
+}
+
+// VerifMinorLevel returns the compactor's minor-compaction cursor.
+func (c *Compactor) VerifMinorLevel() int { return c.minorCompactionLevel }
